@@ -47,6 +47,8 @@ type Case struct {
 	Spec *LargeSpec `json:"spec,omitempty"`
 	// Alias (kind "aliased"): rings that share memory with each other (alias_test.go).
 	Alias *AliasSpec `json:"alias,omitempty"`
+	// Edit (kind "edited"): a ring that is edited in place between calls (edit_test.go).
+	Edit *EditSpec `json:"edit,omitempty"`
 }
 
 // placer maps lattice coordinates to the coordinates given to orb.
@@ -327,6 +329,12 @@ func checkCase(c Case) error {
 		}
 		_, err := checkLarge(*c.Spec)
 		return err
+	}
+	if c.Kind == "edited" {
+		if c.Edit == nil {
+			return fmt.Errorf("harness: edited case without a spec")
+		}
+		return checkEdited(c)
 	}
 	if c.Kind == "aliased" {
 		if c.Alias == nil {
